@@ -66,6 +66,7 @@ pub struct DirOpts {
     pub audit_adv: bool, // adversarial audit proofs for the latest transition after each effective publish
     pub lookup_adv: bool,
     pub history_adv: bool,
+    pub lag: bool, // read-only instances whose cached epoch record falls behind by 0..3 epochs (C13)
 }
 
 /// one directory history as an ops segment
@@ -182,6 +183,36 @@ pub fn dir_case(rng: &mut Rng, cfg: &str, o: &DirOpts, out: &mut Vec<String>) {
                         out.push(format!("dir.audit {s} {e}"));
                     }
                     out.push(format!("dir.verify.audit {s} {e}"));
+                }
+            }
+        }
+        if o.lag {
+            // readers 0..3 are re-pinned in rotation, so that at any time they lag by 0,1,2,3 effective epochs
+            let k = step % 4;
+            for r in 0..4usize {
+                if step >= 4 || r <= step {
+                    if r == k {
+                        out.push(format!("lag.new {r}"));
+                    }
+                }
+            }
+            for r in 0..4usize {
+                if step < 4 && r > step {
+                    continue;
+                }
+                out.push(format!("lag.epochhash {r}"));
+                for u in pool.iter().take(4) {
+                    let hu = hex_or_dash(u);
+                    out.push(format!("lag.lookup {r} {hu}"));
+                    out.push(format!("lag.history {r} {hu} complete"));
+                    out.push(format!("lag.history {r} {hu} recent:1"));
+                }
+                if epoch >= 1 {
+                    out.push(format!("lag.audit {r} 0 {}", epoch));
+                    out.push(format!("lag.audit {r} {} {}", epoch - 1, epoch));
+                    if epoch >= 3 {
+                        out.push(format!("lag.audit {r} {} {}", epoch - 3, epoch - 1));
+                    }
                 }
             }
         }
@@ -334,7 +365,7 @@ pub fn generate(stream: &str, tier: &str, seed: u64) -> Vec<String> {
         "l1.c14" => {
             // histories with every kind of read, verified (C14: the configuration matrix replays this stream)
             for i in 0..(if thorough { 6 } else { 2 }) {
-                let o = DirOpts { epochs: if thorough { 14 } else { 7 }, users: 6, lookups: true, histories: true, audits: true, dumps: false, tombstones: false, proofs: false, hot_user: i % 2 == 0, audit_adv: false, lookup_adv: false, history_adv: false };
+                let o = DirOpts { epochs: if thorough { 14 } else { 7 }, users: 6, lookups: true, histories: true, audits: true, dumps: false, tombstones: false, proofs: false, hot_user: i % 2 == 0, audit_adv: false, lookup_adv: false, history_adv: false, lag: false };
                 dir_case(&mut rng, if i % 2 == 0 { "wv1" } else { "exp" }, &o, &mut out);
             }
             crate::gen_trie::gen_perm(&mut rng, thorough, &mut out);
@@ -342,49 +373,55 @@ pub fn generate(stream: &str, tier: &str, seed: u64) -> Vec<String> {
         "l1.fault" => gen_fault(&mut rng, thorough, &mut out),
         "l1.dir.c01" => {
             for i in 0..ncases {
-                let o = DirOpts { epochs: epochs + (i % 3) * 4, users, lookups: false, histories: false, audits: false, dumps: true, tombstones: false, proofs: false, hot_user: i % 2 == 0, audit_adv: false, lookup_adv: false, history_adv: false };
+                let o = DirOpts { epochs: epochs + (i % 3) * 4, users, lookups: false, histories: false, audits: false, dumps: true, tombstones: false, proofs: false, hot_user: i % 2 == 0, audit_adv: false, lookup_adv: false, history_adv: false, lag: false };
                 dir_case(&mut rng, if i % 2 == 0 { "wv1" } else { "exp" }, &o, &mut out);
             }
         }
         "l1.dir.c02" => {
             for i in 0..ncases {
-                let o = DirOpts { epochs: if i == 0 { epochs.max(18) } else { epochs }, users, lookups: true, histories: false, audits: false, dumps: false, tombstones: false, proofs: true, hot_user: i < 2, audit_adv: false, lookup_adv: false, history_adv: false };
+                let o = DirOpts { epochs: if i == 0 { epochs.max(18) } else { epochs }, users, lookups: true, histories: false, audits: false, dumps: false, tombstones: false, proofs: true, hot_user: i < 2, audit_adv: false, lookup_adv: false, history_adv: false, lag: false };
                 dir_case(&mut rng, if i % 2 == 0 { "wv1" } else { "exp" }, &o, &mut out);
             }
         }
         "l1.dir.c03" => {
             for i in 0..ncases {
-                let o = DirOpts { epochs: if i == 0 { epochs.max(18) } else { epochs }, users: users.min(5), lookups: false, histories: true, audits: false, dumps: false, tombstones: false, proofs: true, hot_user: i < 2, audit_adv: false, lookup_adv: false, history_adv: false };
+                let o = DirOpts { epochs: if i == 0 { epochs.max(18) } else { epochs }, users: users.min(5), lookups: false, histories: true, audits: false, dumps: false, tombstones: false, proofs: true, hot_user: i < 2, audit_adv: false, lookup_adv: false, history_adv: false, lag: false };
                 dir_case(&mut rng, if i % 2 == 0 { "exp" } else { "wv1" }, &o, &mut out);
             }
         }
         "l1.dir.c04" => {
             for i in 0..ncases {
-                let o = DirOpts { epochs: epochs.min(12), users, lookups: false, histories: false, audits: true, dumps: false, tombstones: false, proofs: true, hot_user: i % 2 == 1, audit_adv: false, lookup_adv: false, history_adv: false };
+                let o = DirOpts { epochs: epochs.min(12), users, lookups: false, histories: false, audits: true, dumps: false, tombstones: false, proofs: true, hot_user: i % 2 == 1, audit_adv: false, lookup_adv: false, history_adv: false, lag: false };
                 dir_case(&mut rng, if i % 2 == 0 { "wv1" } else { "exp" }, &o, &mut out);
             }
         }
         "l1.dir.c06" => {
             for i in 0..ncases {
-                let o = DirOpts { epochs: if i == 0 { epochs.max(12) } else { epochs }, users: users.min(5), lookups: false, histories: false, audits: false, dumps: false, tombstones: false, proofs: false, hot_user: i < 2, audit_adv: false, lookup_adv: true, history_adv: false };
+                let o = DirOpts { epochs: if i == 0 { epochs.max(12) } else { epochs }, users: users.min(5), lookups: false, histories: false, audits: false, dumps: false, tombstones: false, proofs: false, hot_user: i < 2, audit_adv: false, lookup_adv: true, history_adv: false, lag: false };
                 dir_case(&mut rng, if i % 2 == 0 { "wv1" } else { "exp" }, &o, &mut out);
             }
         }
         "l1.dir.c07" => {
             for i in 0..ncases {
-                let o = DirOpts { epochs: if i == 0 { epochs.max(12) } else { epochs }, users: users.min(4), lookups: false, histories: false, audits: false, dumps: false, tombstones: false, proofs: false, hot_user: i < 2, audit_adv: false, lookup_adv: false, history_adv: true };
+                let o = DirOpts { epochs: if i == 0 { epochs.max(12) } else { epochs }, users: users.min(4), lookups: false, histories: false, audits: false, dumps: false, tombstones: false, proofs: false, hot_user: i < 2, audit_adv: false, lookup_adv: false, history_adv: true, lag: false };
                 dir_case(&mut rng, if i % 2 == 0 { "exp" } else { "wv1" }, &o, &mut out);
+            }
+        }
+        "l1.dir.c13" => {
+            for i in 0..ncases {
+                let o = DirOpts { epochs: epochs.max(10), users: users.min(5), lookups: false, histories: false, audits: false, dumps: false, tombstones: false, proofs: false, hot_user: true, audit_adv: false, lookup_adv: false, history_adv: false, lag: true };
+                dir_case(&mut rng, if i % 2 == 0 { "wv1" } else { "exp" }, &o, &mut out);
             }
         }
         "l1.dir.c09" => {
             for i in 0..ncases {
-                let o = DirOpts { epochs: epochs.min(10), users, lookups: false, histories: false, audits: false, dumps: false, tombstones: false, proofs: false, hot_user: i % 2 == 1, audit_adv: true, lookup_adv: false, history_adv: false };
+                let o = DirOpts { epochs: epochs.min(10), users, lookups: false, histories: false, audits: false, dumps: false, tombstones: false, proofs: false, hot_user: i % 2 == 1, audit_adv: true, lookup_adv: false, history_adv: false, lag: false };
                 dir_case(&mut rng, if i % 2 == 0 { "wv1" } else { "exp" }, &o, &mut out);
             }
         }
         "l1.dir.c20" => {
             for i in 0..ncases {
-                let o = DirOpts { epochs, users: users.min(5), lookups: false, histories: false, audits: false, dumps: false, tombstones: true, proofs: false, hot_user: i % 2 == 0, audit_adv: false, lookup_adv: false, history_adv: false };
+                let o = DirOpts { epochs, users: users.min(5), lookups: false, histories: false, audits: false, dumps: false, tombstones: true, proofs: false, hot_user: i % 2 == 0, audit_adv: false, lookup_adv: false, history_adv: false, lag: false };
                 dir_case(&mut rng, if i % 2 == 0 { "wv1" } else { "exp" }, &o, &mut out);
             }
         }
